@@ -167,6 +167,7 @@ with concurrent.futures.ThreadPoolExecutor(max_workers=J) as ex:
         if r:
             res.append(r)
         if (k + 1) % 25 == 0:
+            json.dump({'partial': k + 1, 'of': len(muts), 'compiled': len(res), 'killed': sum(1 for x in res if x['killed_by']), 'survivors': [x for x in res if not x['killed_by']]}, open(OUT, 'w'), indent=1)
             done = [x for x in res]
             print('%d/%d tried, %d compiled, %d killed' % (k + 1, len(muts), len(done), sum(1 for x in done if x['killed_by'])), file=sys.stderr)
 surv = [r for r in res if not r['killed_by']]
